@@ -205,6 +205,28 @@ def timingLine (toks0 : List String) : String :=
     | _, _ => "bad-op"
   | _ => "bad-op"
 
+/-- a download aborted by the client's ERROR after the first DATA: by `c07_stop_on_error` nothing is emitted afterwards,
+whatever the code -/
+def errstopLine (toks : List String) : String :=
+  match toks with
+  | ["errstop", rootH, flags, fsS, dg, _code] =>
+    match bytesOfHex rootH, bytesOfHex dg with
+    | some root, some dgram =>
+      let fl := parseFlags flags
+      let cfg := mkCfg root fl
+      match parseFs root fl fsS with
+      | none => "bad-op"
+      | some fs =>
+        let r := handleDatagram cfg fs Gen.defaultBlockSize dgram
+        match r.worker with
+        | some w =>
+          match w.kind, fs.stat w.path with
+          | .send, some (.file _) => "first=data after=0"
+          | _, _ => "first=other"
+        | none => "first=other"
+    | _, _ => "bad-op"
+  | _ => "bad-op"
+
 /-- a hostile batch followed by a probe: by `c05_probe_independent` the batch does not enter the answer -/
 def stormLine (toks : List String) : String :=
   match toks with
